@@ -98,7 +98,7 @@ EXPR_KINDS = {"num", "opnd", "var", "un", "bin", "cast", "cond", "assign", "post
               "sizeof", "paren"}
 
 
-def shrink_program(stmts, still_fails, budget=120):
+def shrink_program(stmts, still_fails, budget=60):
     """greedy structural shrink; still_fails(stmts) -> bool"""
     cur = stmts
     tests = 0
@@ -212,7 +212,7 @@ def feature_signature(stmts):
 class Explorer:
     """worker-side helper: feed it programs; it compiles, runs states, collects and shrinks failures"""
 
-    def __init__(self, part, pid, fmt="stmt", max_shrinks=6, compiler=None):
+    def __init__(self, part, pid, fmt="stmt", max_shrinks=3, compiler=None):
         self.p = part
         self.pid = pid
         self.c = compiler or boot.compiler(fmt)
@@ -310,3 +310,102 @@ def replay_program(rep, fmt="stmt"):
     if r[0] == "discard":
         return True, f"replay: discarded ({r[1]})"
     return False, f"replay: {r[0]}: {r[1]}"
+
+
+# --------------------------------------------------------------------------------------------- generic worker
+
+def judged_twice(stmts, judged):
+    return judged >= 2
+
+
+def has_kind(stmts, kinds):
+    for n in walk(stmts):
+        if n and n[0] in kinds:
+            return True
+    return False
+
+
+def gen_worker(pid, features, nprog, nstates, seed, depth=3, nest=2, lo=1, hi=6, fmt="stmt",
+               nontrivial=None, classify=None, post=None):
+    """Generate `nprog` programs with Hypothesis, compile, run `nstates` generated states each.
+    nontrivial(stmts, judged) -> bool ; classify(stmts) -> iterable of class labels ; post(explorer, stmts, comp)
+    is an optional extra judge per compiled program (static checks)."""
+    import hypothesis
+    from hypothesis import given, settings, Phase, strategies as st
+    from . import gen
+    p = run.Part()
+    ex = Explorer(p, pid, fmt)
+    features = frozenset(features)
+
+    @hypothesis.seed(seed)
+    @settings(max_examples=nprog, database=None, deadline=None, derandomize=False, phases=[Phase.generate],
+              suppress_health_check=list(hypothesis.HealthCheck))
+    @given(gen.program(features, depth=depth, nest=nest, lo=lo, hi=hi), st.data())
+    def prop(pe, data):
+        stmts, env = pe
+        nstats = {}
+        stmts = gen.normalize(stmts, features, ex.all_subs(), nstats)
+        for k_, v_ in nstats.items():
+            p.exclude(k_.replace("excluded:", ""), v_)
+        comp, text, il = ex.compile(stmts)
+        if comp is None:
+            p.count("program:rejected")
+            p.count("reject:" + il.split(":")[0])
+            return
+        if isinstance(comp, tuple):
+            p.failure(f"{pid} il-unreadable", {"program": text, "error": comp[1], "il": il})
+            return
+        p.count("program:compiled")
+        try:
+            ops = operands_closure(stmts, ex.subs)
+            strat = diff.state_strategy(ops)
+        except diff.Discard as e:
+            p.discard(e.why)
+            return
+        states = [data.draw(strat) for _ in range(nstates)]
+        judged = ex.run_states(stmts, comp, states)
+        if classify:
+            for c in classify(stmts):
+                p.count("class:" + c)
+        if judged and (nontrivial is None or nontrivial(stmts, judged)):
+            p.nontriv(text)
+        if post:
+            post(ex, stmts, comp)
+        p.sample({"program": text, "states_judged": judged}, cap=3)
+
+    prop()
+    ex.finish()
+    return p.d
+
+
+def run_gen(ctx, pid, features, nprog, nstates, shards=16, **kw):
+    per = max(1, nprog // shards)
+    args = [(pid, features, per, nstates, run.sub_seed(ctx.seed, pid, i)) for i in range(shards)]
+    import functools
+    fn = functools.partial(_gen_worker_kw, kw)
+    run.run_sharded(ctx, fn, args, procs=min(16, shards))
+
+
+def _gen_worker_kw(kw, pid, features, per, nstates, seed):
+    return gen_worker(pid, features, per, nstates, seed, **kw)
+
+
+def replay_known(ctx, fmt="stmt"):
+    """Replay the witness of every open finding of this property. Still failing -> KNOWN-FINDING line and the
+    finding's generator feature stays excluded; no longer failing -> the feature is generated again.
+    Returns the set of features to switch back on."""
+    enable = set()
+    for f in ctx.findings:
+        if f.get("status") != "open" or "program" not in f.get("witness", {}):
+            continue
+        w = f["witness"]
+        ok, msg = replay_program({"program": w["program"], "state": w["state"]}, w.get("fmt", fmt))
+        ctx.evaluations += 1
+        if not ok:
+            ctx.known_hit[f["id"]] = f
+            ctx.count("known_finding:" + f["id"])
+        else:
+            ctx.count("finding no longer reproduces:" + f["id"])
+            for feat in f.get("features", []):
+                enable.add(feat)
+    return enable
